@@ -126,12 +126,15 @@ bounded('C11',
         'of the scope, the _keygen output is in 1-1 correspondence with the binding CPython produced with the selected arguments blanked '
         'out: ignored arguments never influence it, every other argument still does.',
         'DESIGN.md 5 C11, 3.8',
-        'bounded scope; explicit-instance "self" ignoring and partials fixing keywords are outside it; "not re-evaluated" follows from C02.', TECH_B)
+        'bounded scope; partials fixing keywords are outside it; "not re-evaluated" follows from C02. Level-A part (pyvc, counted in '
+        'coverage.obligations): the maxsize dispatch (__new__) of the 8 bounded decorator classes hands ignore on to the class it picks.', TECH_B + '; __new__ dispatch by pyvc + z3')
 
 bounded('C17',
         'Bounded (not a proof): the keys of the C09 scope (48 configurations without builtin hash, with and without ignore specifications) '
         'are computed in fresh interpreters under 3 (thorough: 8) different PYTHONHASHSEEDs and must be identical; writer/reader sessions with '
-        'different hash seeds on dir, file and sqlite archives x 7 keymaps must serve the reader by loads only.',
+        'different hash seeds on dir, file and sqlite archives x 10 keymaps must serve the reader by loads only; the sessions also differ in '
+        'keyword order and in history (a failed key build); arguments of a __main__ class under picklemaps with serializer options and under '
+        'every named hash algorithm.',
         'DESIGN.md 5 C17, 3.8',
         'bounded scope; values with process-independent repr/pickle; builtin-hash keymaps excluded as in the statement.',
         TECH_B + '; fresh interpreter processes per hash seed')
@@ -162,7 +165,8 @@ bounded('C03',
         'null archive must discard writes.',
         'DESIGN.md 5 C03',
         'bounded scope; two known findings (dir_archive key aliasing; dir_archive(serialized=False) import-based reader) are listed in '
-        'known_findings.json; hdf and sqlalchemy backends are not installed and not covered; no Level-A proof of the archive methods.',
+        'known_findings.json; hdf and sqlalchemy backends are not installed and not covered. For file_archive(serialized=True) the two '
+        'primitives are themselves proved over an assumed file-system contract (contracts/fs_contracts.py, counted in coverage.obligations).',
         TECH_B.replace('deal contracts on sidecar wrappers of the real functions', 'run-time contract monitor (dict refinement) on the real archive objects'))
 
 bounded('C04',
@@ -184,8 +188,9 @@ bounded('C13',
         'every operation of the scope is enumerated (exhaustive for that scope).',
         'DESIGN.md 5 C13',
         'crash granularity is the Python-level primitive plus half-written data; no power-failure/fsync model; sqlite journalling trusted; one '
-        'listed finding (dir_archive overwrite window). The contract-level proof over an assumed file-system-effect contract (DESIGN.md 5 C13) '
-        'was not built: this is the enumeration that would have validated it.',
+        'listed finding (dir_archive overwrite window). Level-A part (pyvc, counted in coverage.obligations): for file_archive(serialized=True) '
+        'the real __save__/__asdict__/__init__ and the eight mutating mapping methods are proved, over an ASSUMED file-system contract, to leave '
+        'old or new contents readable after every single effect (contracts/fs_contracts.py); dir_archive and sqlite have no such proof.',
         'fault enumeration of the real code in killed child processes against an old-or-new recovery contract (bounded stand-in for the effect-sequence proof)',
         category='fault_enumeration')
 
@@ -196,5 +201,7 @@ bounded('C20',
         'a clone alone must leave the original\'s in-memory state unchanged.',
         'DESIGN.md 5 C20',
         'dill\'s by-value, sharing-preserving copy of closures is an assumed contract and is most of the property; rr_cache is compared with the '
-        'global random generator re-seeded before each lock-step operation; persistent archives (shared storage by design) are not in the scope.',
+        'global random generator re-seeded before each lock-step operation. Also: file/dir archives (pickle, json) as shared storage across the '
+        'round trip, a cached method copied by value. Level-A part (pyvc, counted in coverage.obligations): X.__reduce__() + X(*args) rebuilds an '
+        'equal configuration for the 12 decorator classes and the 3 rounding classes.',
         TECH_B.replace('deal contracts on sidecar wrappers of the real functions', 'run-time lock-step comparison of the real decorated function and its dill clone'))
